@@ -132,13 +132,14 @@ def mulGamma (gamma : Option T) (inv : T) : T :=
   | none => inv
   | some gm => inv.mapIdx fun c v => v * gm.getD c 0
 
-/-- `inv * (bias - mean) + beta` per channel; `bias = 0` when `use_bias=False`;
-    `beta = None` (center=False) makes the Python expression raise: `none` -/
+/-- `inv * (bias - mean) + beta` per channel; `bias = 0` when `use_bias=False`; `beta = 0` when
+    center=False (`if beta is None: beta = 0.` — fix PENDING-center; before it the expression raised).
+    The `Option` is kept for the callers' error channel; it is never `none` any more
+    (`C15_callable`). -/
 def foldedBias (cout : Nat) (inv : T) (bias : Option T) (mean : T) (beta : Option T) : Option T :=
-  match beta with
-  | none => none
-  | some bt => some (tabulate cout fun c =>
-      inv.getD c 0 * ((match bias with | none => 0 | some b => b.getD c 0) - mean.getD c 0) + bt.getD c 0)
+  some (tabulate cout fun c =>
+      inv.getD c 0 * ((match bias with | none => 0 | some b => b.getD c 0) - mean.getD c 0)
+        + (match beta with | none => 0 | some bt => bt.getD c 0))
 
 /-- `folded_kernel = inv * kernel` for QConv2DBatchnorm: `inv` (shape `[cout]`) broadcasts over
     the last axis of the `[kh, kw, cin, cout]` kernel -/
@@ -303,15 +304,6 @@ def Net.unfoldAll (rs : Rat → Rat) : Net → Option Net
   | .folded i L a => (L.unfold rs).bind fun P => (a.unfoldAll rs).map (.conv i P)
   | .un i f a => (a.unfoldAll rs).map (.un i f)
   | .bin i f a b => (a.unfoldAll rs).bind fun a' => (b.unfoldAll rs).map fun b' => .bin i f a' b'
-
-/-- every batch-norm in the network has a beta (center=True) — the folded layers need it -/
-def Net.centered : Net → Prop
-  | .input => True
-  | .conv _ _ a => a.centered
-  | .bn _ p _ a => p.beta.isSome ∧ a.centered
-  | .folded _ _ a => a.centered
-  | .un _ _ a => a.centered
-  | .bin _ _ a b => a.centered ∧ b.centered
 
 /-- the conv in front of every batch norm is a stock layer: linear (no activation between conv and
     BN), no quantizers, and the batch-norm vectors are indexed by the conv's output channels -/
